@@ -31,6 +31,8 @@ CHECKS = {
             "off-end is absorbing; the sorted sequence comes from the driver's bookkeeping"),
     "C03": (MC, "7.C03", "TLC exhaustive run of Flush.tla (main / dispatcher / workers / reader as separate actions: every interleaving, completion order, failure subset and retry within the constants; liveness under weak fairness) + MakeRoot executions of the real code under a controlled Persist, schedules enumerated depth-first by re-execution, recorded and validated by TLC against TraceFlush.tla",
             "schedules act through the caller-supplied Persist and Marshal only; unrealisable decisions end a branch; exhaustive within the constants"),
+    "C12": ("fault_enumeration", "7.C12", "enumeration on the real code of every fallible call position (Persist.Load, KeyCompare, Marshal, Unmarshal; pairs for comparison callbacks) of every operation on prepared trees; each run (result, tree observed through a fault-free view, retry) validated by TLC against TraceFaults.tla, whose normal outcomes come from the map model, ModelDiff and the walk oracle",
+            "positions come from a dry run on an identically prepared tree; panics under a fault are counted, not judged; two recorded findings (Delete/shrink, Insert/grow) are matched by their input class"),
 }
 
 NOT_YET = {
